@@ -13,7 +13,7 @@ REDUCERS = ["count", "count_nonzero", "sum", "prod", "any", "all", "min", "max",
 OPCODE = {"at": 0, "range": 1, "field": 2, "fields": 3, "carry": 4, "num": 5, "flatten": 6, "flatten_offsets": 7,
           "localindex": 8, "reduce": 9, "sort": 10, "argsort": 11, "combinations": 12, "rpad": 13, "rpad_and_clip": 14,
           "fillna": 15, "merge": 16, "merge_as_union": 17, "simplify": 18, "deep_copy": 19, "numbers_to_type": 20,
-          "unique": 21, "shallow_copy": 23, "getitem_nothing": 24, "range_nowrap": 28, "mergemany": 29}
+          "unique": 21, "shallow_copy": 23, "getitem_nothing": 24, "range_nowrap": 28, "mergemany": 29, "with_identities": 30}
 TYPES = ["bool", "int8", "int32", "int64", "uint8", "uint64", "float32", "float64"]
 
 # kinds of op, for swarm selection
@@ -77,6 +77,7 @@ def gen_slice_items(r, info, nslots=None):
 
 def _gen_slice_items(r, info):
     n, depth, keys = info["length"], info["depth"], info["keys"]
+    inner = info.get("inner", 3)       # size of the lists one level down (so that "exactly the size" is hit often)
     items = []
     nitems = r.choice([1, 1, 1, 2, 2, 3])
     used_ellipsis = False
@@ -91,9 +92,9 @@ def _gen_slice_items(r, info):
         if adv_len is not None and (0.6 <= x < 0.94 and not (0.8 <= x < 0.88)):
             x = 0.3
         if x < 0.2:
-            items.append({"k": "at", "i": gen_index(r, cur_n if level == 0 else 3)})
+            items.append({"k": "at", "i": gen_index(r, cur_n if level == 0 else inner)})
         elif x < 0.5:
-            a, b = gen_range(r, cur_n if level == 0 else 3)
+            a, b = gen_range(r, cur_n if level == 0 else inner)
             step = r.choice([None, None, 1, 2, -1, -2, 3])
             items.append({"k": "range", "start": a, "stop": b, "step": step})
         elif x < 0.55 and not used_ellipsis:
@@ -102,7 +103,7 @@ def _gen_slice_items(r, info):
         elif x < 0.6:
             items.append({"k": "newaxis"})
         elif x < 0.72:
-            m = cur_n if level == 0 else 2
+            m = cur_n if level == 0 else r.choice([2, inner])
             cnt = r.choice([0, 1, 2, 3, 5])
             items.append({"k": "ints", "v": [gen_index(r, m) if r.random() < 0.9 else m for _ in range(cnt)] if m > 0 else []})
             adv_len = len(items[-1]["v"])
@@ -187,7 +188,8 @@ def gen_op(r, info, nslots, enabled=None):
     if k == "simplify":
         return {"op": "simplify"}
     if k == "copy":
-        return {"op": r.choice(["deep_copy", "shallow_copy", "getitem_nothing"]), "flags": [r.random() < 0.5 for _ in range(3)]}
+        return {"op": r.choice(["deep_copy", "shallow_copy", "getitem_nothing", "with_identities"]),
+                "flags": [r.random() < 0.5 for _ in range(3)]}
     if k == "totype":
         return {"op": "numbers_to_type", "name": r.choice(TYPES)}
     return {"op": "unique"}
@@ -321,6 +323,8 @@ def apply(node, op, a, slot_handle, tmp, before=None):
         return node.op(19, a, iargs=[1 if f else 0 for f in op["flags"]])
     if k == "shallow_copy":
         return node.op(23, a)
+    if k == "with_identities":
+        return node.op(30, a)
     if k == "getitem_nothing":
         return node.op(24, a)
     if k == "numbers_to_type":
